@@ -317,6 +317,31 @@ theorem paired_update_inv' (f : Vec K) (A : CRS K) (hA : A.WF) (α : K) (d x q z
       axpbypcz_getD _ _ _ _ _ _ _ (by rw [residual_size']; exact hi)]
     ring
 
+/-- the true residual of the zero vector is the right-hand side -/
+theorem residual_vclear (f : Vec K) (A : CRS K) (m : Nat) (hf : f.size = A.nrows) :
+    residual f A (vclear m) = f := by
+  apply Vec.ext_getD (0 : K)
+  · rw [residual_size', hf]
+  · intro i hi
+    rw [residual_size'] at hi
+    rw [residual_getD _ _ _ _ hi, rowDot_zero _ _ (fun cv _ => vclear_getD m cv.1)]
+    ring
+
+/-- `r − 1·r` is the zero vector -/
+theorem axpby_cancel (r : Vec K) : axpby (-1) r 1 r = vclear r.size := by
+  apply Vec.ext_getD (0 : K)
+  · rw [axpby_size]; simp [vclear]
+  · intro i hi
+    rw [axpby_size] at hi
+    rw [axpby_getD _ _ _ _ _ hi, vclear_getD]; ring
+
+theorem axpbypcz_cancel (r z : Vec K) : axpbypcz 1 r (-1) r 0 z = vclear r.size := by
+  apply Vec.ext_getD (0 : K)
+  · rw [axpbypcz_size]; simp [vclear]
+  · intro i hi
+    rw [axpbypcz_size] at hi
+    rw [axpbypcz_getD _ _ _ _ _ _ _ hi, vclear_getD]; ring
+
 /-- linearity of a preconditioner on vectors of length `n`, in the form the solvers use it:
 `P(u + a·w) = P u + a·P w` (written with the backend primitive `axpbypcz(1, u, a, w, 0, ·)`) -/
 def PLin (n : Nat) (P : Vec K → Vec K) : Prop :=
@@ -351,6 +376,18 @@ end vec
 /-! ### prologue -/
 section prologue
 variable {K : Type} [Field K] [DecidableEq K] [LT K] [DecidableLT K]
+
+/-- **the reported number, in the exact form the code computes it**: on the early return (`‖f‖ < eps(1)`, no
+`ns_search`) the solvers return `norm_rhs = ‖f‖` itself — which is the ABSOLUTE residual of the returned `x = 0`;
+otherwise they return `absRes / norm_rhs` where `absRes` is the norm of the (preconditioned) residual vector and
+`norm_rhs` is `‖f‖`, or `1` when `ns_search` replaced a tiny `‖f‖`. -/
+def reported (pl : Prologue K) (absRes : K) : K :=
+  match pl with
+  | .trivial n => n
+  | .go nf => absRes / nf
+
+theorem absK_zero : absK (0 : K) = 0 := by
+  unfold absK; split <;> simp
 
 theorem prologue_trivial (ns : Bool) (ip : Vec K → Vec K → K) (sqrt : K → K) (eps : K) (f : Vec K) (n : K) :
     prologue ns ip sqrt eps f = .trivial n ↔ (nrm ip sqrt f < eps ∧ ns = false ∧ n = nrm ip sqrt f) := by
